@@ -81,17 +81,20 @@ ParseDur(s) ==
   LET sg == IF At(s, 1) = MINUS THEN -1 ELSE 1
       p0 == IF At(s, 1) \in {PLUS, MINUS} THEN 2 ELSE 1
       w  == Elem(s, p0 + 1, WEE, MSPD)
-      d  == Elem(s, p0 + 1, DEE, MSPD)
+      (* the code reads [nW][nD] in that order before the time part, beyond the RFC 5545 grammar it quotes: nW alone is  *)
+      (* the legal form, nWnD[T..] and nWT.. are the combinations the statement speaks of, read as the sum             *)
+      d  == Elem(s, w.nxt, DEE, MSPD)
       pt == d.nxt
       hasT == At(s, pt) = TEE
       h  == Elem(s, pt + 1, AITCH, 3600000)
       mi == Elem(s, h.nxt, EM, 60000)
       se == Elem(s, mi.nxt, ESS, 1000)
-      tot == DAdd(DAdd(d.val, h.val), DAdd(mi.val, se.val))
+      wv == <<w.val[1] * 7, 0>>
+      dat == DAdd(wv, d.val)
+      tot == DAdd(DAdd(dat, h.val), DAdd(mi.val, se.val))
   (* the contract covers non-negative durations only *)
   IN IF At(s, p0) # PEE \/ sg = -1 THEN DurUndef
-     ELSE IF w.hit THEN (IF w.nxt = Len(s) + 1 THEN (IF sg = 1 THEN <<w.val[1] * 7, 0>> ELSE NegDur(<<w.val[1] * 7, 0>>)) ELSE DurUndef)
-     ELSE IF ~hasT THEN (IF d.hit /\ d.nxt = Len(s) + 1 THEN (IF sg = 1 THEN d.val ELSE NegDur(d.val)) ELSE DurUndef)
+     ELSE IF ~hasT THEN (IF (w.hit \/ d.hit) /\ pt = Len(s) + 1 THEN (IF sg = 1 THEN dat ELSE NegDur(dat)) ELSE DurUndef)
      ELSE IF (h.hit \/ mi.hit \/ se.hit) /\ se.nxt = Len(s) + 1 THEN (IF sg = 1 THEN tot ELSE NegDur(tot))
      ELSE DurUndef
 =============================================================================
